@@ -68,7 +68,7 @@ func runC09(seed uint64, n int, outDir string, replay string) {
 	o := h.NewOut(outDir, "c09")
 	r := h.NewRng(seed)
 	ans := func(s string) { o.Ans("impl", "%s", s) }
-	_, allocs := cwAccounts()
+	_, allocs := cwAllAllocs()
 	blocksPerCase := 30
 	for c := 0; c < n; c++ {
 		rc := r.Fork()
